@@ -586,7 +586,10 @@ func (w *worker[T, JobType]) TunePool(concurrency int) error {
 		return ErrSameConcurrency
 	}
 
-	w.concurrency.Store(safeConcurrency)
+	// what this call replaces is what was there when its own value went in, not what was read
+	// above: with two TunePool calls at once the one that ends up raising the limit is the one that
+	// wakes the event loop, and the one that lowers it shrinks the pool
+	oldConcurrency = w.concurrency.Swap(safeConcurrency)
 
 	// if new concurrency is greater than the old concurrency, then notify to pull next jobs
 	// cause it will be extended by the event loop when it needs
